@@ -931,6 +931,8 @@ pub enum ConstsError {
         "unable to add consts for policy {computation_id}. state must be Validate, SendingConsts or SendingConstsCompleted but is {state}"
     )]
     InvalidState { state: String, computation_id: Uuid },
+    #[error("unknown sender {from} of consts for policy {computation_id}")]
+    UnknownSender { from: usize, computation_id: Uuid },
 }
 
 impl<B, C> PolicyState<B, C>
@@ -944,6 +946,23 @@ where
         consts_request: ConstsRequest,
         ret: Ret<ConstsError>,
     ) -> ControlFlow<(), Self> {
+        // Constants can only come from one of the other participants. Anything else would be
+        // stored under a `PARTY_{from}` key nobody provides and confuse `check_consts`.
+        if let PolicyStateKind::Validated { policy, .. }
+        | PolicyStateKind::SendingConsts { policy, .. }
+        | PolicyStateKind::SendingConstsCompleted { policy, .. } = &self.state_kind
+            && (consts_request.from >= policy.participants.len()
+                || consts_request.from == policy.party)
+        {
+            ret_err(
+                ret,
+                ConstsError::UnknownSender {
+                    from: consts_request.from,
+                    computation_id: consts_request.computation_id,
+                },
+            );
+            return ControlFlow::Continue(self);
+        }
         match mem::take(&mut self.state_kind) {
             state @ (PolicyStateKind::Validated { .. } | PolicyStateKind::SendingConsts { .. }) => {
                 self.state_kind = state;
